@@ -180,7 +180,7 @@ def implFieldBytes (o : MOpts) (childEnc : Nat → Val → Res Bytes) (f : Field
      | .one x =>
        (match implElemBytes childEnc f.elem x with
         | .ok b => .ok (key ++ b) | .err e => .err e | .panic => .panic)
-     | .oneNil => .panic          -- `case *W: … x.F` dereferences the typed-nil wrapper
+     | .oneNil => .ok []          -- `case *W: if x == nil { break }` (typed-nil wrapper, fix 424cbe1)
      | _ => .ok [])
   | .repeated packed =>
     if v.elems.isEmpty then .ok []
